@@ -423,3 +423,21 @@ fn c09_dec_above_the_last_sampled_position() {
     assert_eq!(pb.position(), 150_000);
     assert_eq!(pb.per_sec(), 0.0, "a backwards move is reported as progress");
 }
+
+/// C03: static lines of finished bars left on another terminal must not be cleared from this one.
+#[test]
+fn c03_set_draw_target_forgets_zombie_lines_of_the_old_target() {
+    let t = InMemoryTerm::new(10, 20);
+    let u = InMemoryTerm::new(10, 20);
+    let mp = MultiProgress::with_draw_target(ProgressDrawTarget::term_like(Box::new(t.clone())));
+    mp.println("L0").unwrap();
+    mp.println("L1").unwrap();
+    mp.set_draw_target(ProgressDrawTarget::term_like(Box::new(u.clone())));
+    let b = mp.add(ProgressBar::new(5).with_style(ProgressStyle::with_template("{prefix}:{pos}\n+").unwrap()).with_prefix("b").with_finish(ProgressFinish::AndLeave));
+    b.tick();
+    b.finish();
+    drop(b);
+    mp.set_draw_target(ProgressDrawTarget::term_like(Box::new(t.clone())));
+    mp.println("L2").unwrap();
+    assert_eq!(t.contents(), "L0\nL1\nL2");
+}
